@@ -3,6 +3,9 @@ import FurikoModel.Driver.CronD
 import FurikoModel.Driver.QueueD
 import FurikoModel.Driver.CronRecD
 import FurikoModel.Driver.ConfigD
+import FurikoModel.Driver.OptionsD
+import FurikoModel.Driver.IndexesD
+import FurikoModel.Driver.JcStatusD
 open Furiko Furiko.Driver
 
 structure DState where
@@ -11,6 +14,8 @@ structure DState where
   queue : QueueDS := {}
   cronrec : CronRecDS := {}
   config : ConfigDS := {}
+  idx : IdxDS := {}
+  jcstatus : JcDS := {}
 
 def step (s : DState) (line : String) : DState × String :=
   let t := toks line
@@ -32,6 +37,13 @@ def step (s : DState) (line : String) : DState × String :=
     else if op.startsWith "cfg." then
       let (c, o) := configStep s.config t
       ({ s with config := c }, o)
+    else if op.startsWith "opt." then (s, optionsStep t)
+    else if op.startsWith "idx." then
+      let (c, o) := idxStep s.idx t
+      ({ s with idx := c }, o)
+    else if op.startsWith "jcstatus." then
+      let (c, o) := jcStatusStep s.jcstatus t
+      ({ s with jcstatus := c }, o)
     else (s, "bad-op")
 
 partial def loop (hin : IO.FS.Stream) (hout : IO.FS.Stream) (s : DState) : IO Unit := do
